@@ -998,6 +998,32 @@ def generate_sweep(rng: random.Random, index: int, of: int, light: bool = False)
     return {"engine": "e2", "knobs": knobs, "ops": ops}
 
 
+def generate_blocks(rng: random.Random, index: int, of: int) -> Dict[str, Any]:
+    """Systematic part for the generator's special block families (the unusual
+    shapes that seeded changes needed): every family gets, per slice, a few fresh
+    variants, each through format_code, through every single-run stage of
+    format_code in isolation, and through format_code again."""
+    from . import rules as R
+
+    kinds = gen.SPECIAL_BLOCKS
+    kind = kinds[index % len(kinds)]
+    tail = R.harvest_tail()
+    takes = {n: tp for n, (_f, tp) in R.harvest().items()}
+    ops: List[Dict[str, Any]] = []
+    for v in range(3):
+        x = gen.gen_module(rng, special=True, force=kind, process_dependent=(kind in ("doc", "spell")))
+        if v == 2:
+            x = gen.with_blank_runs(rng, x)
+        ops.append({"op": "FMT", "x": x})
+        for name in tail:
+            op: Dict[str, Any] = {"op": "RULE", "rule": name, "x": x}
+            if takes.get(name) and rng.random() < 0.3:
+                op["preserve"] = sorted(gen.some_names(rng, x))
+            ops.append(op)
+        ops.append({"op": "FMT", "x": x, **({"safe": True} if rng.random() < 0.3 else {})})
+    return {"engine": "e2", "knobs": rng.choice(["default", "unbounded"]), "ops": ops}
+
+
 def generate_trees(rng: random.Random, profile: Dict[str, Any]) -> Dict[str, Any]:
     """History over two project trees (same module names, other layout) in one
     process: clients of plain modules are formatted in tree A and tree B in drawn
@@ -1030,7 +1056,14 @@ def generate_chains(rng: random.Random, profile: Dict[str, Any]) -> Dict[str, An
     output with one drawn option combination; the chains are interleaved so the
     applications of one chain meet the cache state left by the others."""
     corp = gen.corpus()
-    if profile.get("index") is not None:
+    if profile.get("blocks"):
+        # systematic: one special block family per slice, several fresh variants (settle twice as many:
+        # the shapes on which the rules' natural two-cycles live are a small part of that family)
+        kind = gen.SPECIAL_BLOCKS[profile["index"] % len(gen.SPECIAL_BLOCKS)]
+        inputs = [gen.gen_module(rng, special=True, force=kind, process_dependent=(kind in ("doc", "spell"))) for _ in range(8 if kind == "settle" else 4)]
+        if kind == "deep":
+            inputs = inputs + inputs  # each under two line lengths
+    elif profile.get("index") is not None:
         entries = corp[profile["index"] :: profile["of"]]
         inputs = [e["source"] for e in entries]
     else:
@@ -1064,7 +1097,7 @@ def generate_chains(rng: random.Random, profile: Dict[str, Any]) -> Dict[str, An
             o["max_line_length"] = rng.choice([60, 72, 79, 120])
         opts.append(o)
     order = [ci for ci in range(len(inputs)) for _ in range(6)]
-    if profile.get("index") is None:
+    if profile.get("index") is None or profile.get("blocks"):
         rng.shuffle(order)
     for ci in order:
         op: Dict[str, Any] = {"op": "FMT", "x": inputs[ci] if not chains[ci] else "", **opts[ci]}
@@ -1077,10 +1110,12 @@ def generate_chains(rng: random.Random, profile: Dict[str, Any]) -> Dict[str, An
 
 def run_seed(seed: int, **profile) -> Dict[str, Any]:
     rng = random.Random(seed)
-    if profile.get("trees"):
-        case = generate_trees(rng, profile)
-    elif profile.get("chains"):
+    if profile.get("chains"):
         case = generate_chains(rng, profile)
+    elif profile.get("blocks"):
+        case = generate_blocks(rng, profile["index"], profile["of"])
+    elif profile.get("trees"):
+        case = generate_trees(rng, profile)
     elif profile.get("sweep"):
         case = generate_sweep(rng, profile["index"], profile["of"], light=bool(profile.get("light")))
     else:
